@@ -38,9 +38,11 @@ def run(ck: Check):
     try:
         # ------------------------------------------------------------ outputs
         streams = [(b"hello world\n", b""), (b"", b"oops: hello\n"), (b"line one\nline two\n", b"err\n"),
-                   (b"\x00\xffbin\n", b"\xfe"), (b"", b""), (b"he", b"llo"), (b"xhello", b"")]
-        literals = ["hello", "line two", "one\nline", "zzz", "", "llo", "he"]
-        regexes = ["he.lo", "^line two$", "one\\nline", "h[a-z]+o w", "^oops", "z+", "two$", "^$"]
+                   (b"\x00\xffbin\n", b"\xfe"), (b"", b""), (b"he", b"llo"), (b"xhello", b""),
+                   (b"caf\xc3\xa9 crashed\n", b""), (b"", b"h\xc3\xa9llo\n"), (b"a\xffb\n", b"\xe2\x82\xac1\n")]
+        literals = ["hello", "line two", "one\nline", "zzz", "", "llo", "he", "a\ufffdb", "\u00e9", "caf\u00e9"]
+        regexes = ["he.lo", "^line two$", "one\\nline", "h[a-z]+o w", "^oops", "z+", "two$", "^$",
+                   "^caf. crashed$", "^\\w+$", "caf..", "a.b", "^.1$", "h..llo"]
         jobs = []
         for (o, e) in streams:
             for s in literals:
